@@ -324,6 +324,80 @@ def variant_arms_write(body):
     return None
 
 
+def variant_contexts_write(body):
+    """Per-variant views of a `write`-side body: every switch on the discriminant of the same parameter-rooted enum value is
+    taken consistently.  Returns [(label, blocks that can run when the scrutinee is that variant)] or None when the body does
+    not match on such a value.  (One `match self` or several — a first one computing the tag and count, a second one writing
+    the elements — give the same views.)"""
+    groups = {}
+    for b in sorted(body.live_blocks()):
+        t = body.term(b)
+        if t['k'] != 'switch' or not is_place(t['d']):
+            continue
+        _, d = lib.resolve_copy(body, op_local(t['d']))
+        if d is None or d.kind != 'assign' or d.rv['k'] != 'discr':
+            continue
+        pl = body.through_ref(d.rv['pl'])
+        roots = [r for r in copy_chain_sources(body, {'cp': {'l': pl['l'], 'p': []}}, through_calls=IDENTITY_CALLS)
+                 if r[0] == 'param' and SER not in body.local_ty(r[1]) and DE not in body.local_ty(r[1])]
+        if not roots and not body.is_param(pl['l']):
+            continue
+        if 'ControlFlow' in body.local_ty(d.rv['pl']['l']) or 'std::result::Result' in body.local_ty(d.rv['pl']['l']):
+            continue
+        key = (tuple(sorted((r[1], tuple(r[2])) for r in roots)) or (pl['l'],), tuple(proj_names(pl)))
+        groups.setdefault(key, []).append((b, t))
+    if not groups:
+        return None
+    key = sorted(groups, key=lambda k: min(b for b, _t in groups[k]))[0]
+    sws = groups[key]
+    live = body.live_blocks()
+    values = []
+    for (b, t) in sws:
+        for v, _tgt in t['cases']:
+            if v not in values:
+                values.append(v)
+        if t['else'] in body.succs[b] and body.term(t['else'])['k'] != 'unreachable' and None not in values:
+            values.append(None)
+    out = []
+    for v in values:
+        excluded = set()
+        for (b, t) in sws:
+            cvals = [c[0] for c in t['cases']]
+            for cv, tgt in t['cases']:
+                if cv != v:
+                    excluded |= body.dominated_by_edge((b, tgt))
+            if v in cvals and t['else'] in body.succs[b]:
+                excluded |= body.dominated_by_edge((b, t['else']))
+        out.append(('variant#%s' % (v,), set(live) - excluded))
+    return out
+
+
+def const_under(F, body, op, blocks, depth=0):
+    """Constant value of an operand when only the definitions located in `blocks` can have run (a tag chosen by an earlier
+    `match` on the same scrutinee)."""
+    if op is None or depth > 8:
+        return None
+    if 'c' in op:
+        return op['c'].get('v')
+    pl = op_place(op)
+    ds = [d for d in body.defs().get(pl['l'], []) if d.b in blocks and d.kind in ('assign', 'call')]
+    if len(ds) != 1 or ds[0].kind != 'assign' or ds[0].lhs['p']:
+        return None
+    rv = ds[0].rv
+    fp = field_path(pl)
+    if rv['k'] == 'use':
+        a = rv['a']
+        if 'c' in a:
+            return a['c'].get('v') if not fp else None
+        q = op_place(a)
+        return const_under(F, body, {'cp': {'l': q['l'], 'p': list(q['p']) + list(pl['p'])}}, blocks, depth + 1)
+    if rv['k'] == 'cast':
+        return const_under(F, body, rv['a'], blocks, depth + 1) if not fp else None
+    if rv['k'] == 'agg' and rv.get('tuple') and fp and fp[0].isdigit() and int(fp[0]) < len(rv['ops']) and len(fp) == 1:
+        return const_under(F, body, rv['ops'][int(fp[0])], blocks, depth + 1)
+    return None
+
+
 def read_branches(F, body, events):
     """For `read`: comparisons of a Leb result with a constant that are branched on.
     Returns [(const, true-only blocks, false-only blocks, leb call)]."""
@@ -377,9 +451,10 @@ def alternatives(F, body, side, depth=0, seen=()):
         return [[]]
     seen = tuple(seen) + (body.key,)
     evs = shallow_events(F, body, side)
+    wctx = None
     if side == 'w':
-        arms = variant_arms_write(body) or {}
-        ctxs = [('variant#%s' % (k[1],), bl, None, None) for k, bl in arms.items()]
+        wctx = variant_contexts_write(body) or []
+        ctxs = [(label, bl, None, None) for (label, bl) in wctx]
     else:
         ctxs = [(label, tb, leb, cv) for (label, tb, leb, cmp_, cv) in read_branches(F, body, evs)]
     if not ctxs:
@@ -390,7 +465,7 @@ def alternatives(F, body, side, depth=0, seen=()):
         seqs = [[]]
         for e in evs:
             if blocks is not None:
-                inany = any(e.rb in bl for bl in allb)
+                inany = any(e.rb in bl for bl in allb) or side == 'w'
                 if not (e.rb in blocks or not inany):
                     continue
             if isinstance(e, Inline):
@@ -401,6 +476,8 @@ def alternatives(F, body, side, depth=0, seen=()):
                 s = e.sig()
                 if e.kind == 'Leb' and leb is not None and e.call is leb:
                     s = (s[0], s[1], s[2], cv)
+                if side == 'w' and e.kind == 'Leb' and s[3] is None and blocks is not None:
+                    s = (s[0], s[1], s[2], const_under(F, body, e.data, blocks))
                 seqs = [x + [s] for x in seqs]
         for s in seqs:
             if s and s not in out:
@@ -611,9 +688,21 @@ def control_from_input(F, body, op):
         sl = backward_slice(body, [cmp_['a'], cmp_['b']], follow_mutarg=False)
         if sl.has_call(r'Deserializer::<?.*read'):
             input_cmps.append(cmp_)
+    # ... or by a `match` on the integer that was read
+    input_edges = []
+    for b in sorted(body.live_blocks()):
+        t = body.term(b)
+        if t['k'] != 'switch' or not is_place(t['d']) or len(body.succs[b]) < 2:
+            continue
+        sl = backward_slice(body, [t['d']], follow_mutarg=False)
+        if sl.has_call(r'Deserializer::<?.*read'):
+            input_edges += [(b, s) for s in body.succs[b]]
     for d in ds:
-        if not any(body.edge_dominates(c['te'], d.b) or body.edge_dominates(c['fe'], d.b) for c in input_cmps):
-            return False
+        if any(body.edge_dominates(c['te'], d.b) or body.edge_dominates(c['fe'], d.b) for c in input_cmps):
+            continue
+        if any(body.edge_dominates(e, d.b) for e in input_edges):
+            continue
+        return False
     return True
 
 
